@@ -201,7 +201,7 @@ func runC01(r *core.Run) {
 			n := ref.Prod(shape)
 			var states []c01state
 			// roots and atlas layouts
-			for _, lay := range []string{"C", "F", "Fc", "T", "S", "SS", "ST", "TS", "FS", "FT"} {
+			for _, lay := range []string{"C", "F", "Fc", "T", "S", "SS", "ST", "TS", "FS", "FT", "DC", "DT", "DS"} {
 				lay := lay
 				states = append(states, c01state{id: lay, conv: lay == "Fc", mk: func() (*atlas.Built, string) {
 					vals := make([]interface{}, n)
